@@ -194,8 +194,8 @@ func (r *Recorder) loadKnown(replay ReplayFunc) {
 	}
 	for _, ln := range strings.Split(string(b), "\n") {
 		ln = strings.TrimSpace(ln)
-		if ln == "" || strings.HasPrefix(ln, "#") {
-			continue
+		if !strings.HasPrefix(ln, "{") {
+			continue // comments and "fixed:" records suppress nothing
 		}
 		var kf KnownFinding
 		if err := json.Unmarshal([]byte(ln), &kf); err != nil {
